@@ -1084,12 +1084,37 @@ def helpers_batch(rep, rng):
       b.add('nist.excursionpi %s %s' % (H(x), H(mc)),
             ','.join('%x:%x' % (p.numerator, p.denominator) for p in nt.excursion_distribution(x, mc)),
             tag='excursionpi', info=dict(x=x, mc=mc))
+  # RankDistribution(r, c, k, allow_approximation=False): the model's exact rational recurrence against
+  # the same loop over Fractions, and against the implementation's floats
+  for (r, c, k) in ((1, 1, 1), (2, 2, 1), (3, 3, 2), (3, 5, 3), (5, 3, 2), (6, 8, 2), (4, 7, 3), (8, 8, 9),
+                    (8, 8, 0), (10, 12, 4), (16, 16, 3), (30, 30, 3), (31, 31, 6), (32, 32, 3), (32, 32, 6)):
+    if k == 0:
+      res = [Fr(0)] * (r + 1)
+      res[0] = Fr(1)
+      for _ in range(c):
+        for j in range(r - 1, -1, -1):
+          pdj = Fr(1, 2 ** (r - j))
+          res[j + 1] += res[j] * (1 - pdj)
+          res[j] *= pdj
+      ex = res[-k:][::-1] + [sum(res[:-k])]
+    else:
+      ex = nt.rank_distribution(r, c, k, False)
+    b.add('nist.rankdist %s %s %s' % (H(r), H(c), H(k)),
+          ','.join('%x:%x' % (p.numerator, p.denominator) for p in ex),
+          tag='rankdist', info=dict(r=r, c=c, k=k))
   out = fw.run_driver([it['line'] for it in b.items])
   div = []
   for it, m in zip(b.items, out):
     it['model'] = m
     ok = True
-    if it['tag'] == 'excursionpi':
+    if it['tag'] == 'rankdist':
+      ok = m == it['impl']
+      if ok:
+        mv = [Fr(int(a, 16), int(c, 16)) for a, c in (p.split(':') for p in m.split(','))]
+        pv = ns.RankDistribution(it['info']['r'], it['info']['c'], it['info']['k'], False)
+        ok = len(pv) == len(mv) and all(abs(float(a) - p) <= 1e-12 * max(p, 1e-300) + 1e-300
+                                        for a, p in zip(mv, pv))
+    elif it['tag'] == 'excursionpi':
       # the model prints unreduced fractions: compare values, and both against the implementation's floats
       mv = [Fr(int(a, 16), int(c, 16)) for a, c in (p.split(':') for p in m.split(','))]
       ev = [Fr(int(a, 16), int(c, 16)) for a, c in (p.split(':') for p in it['impl'].split(','))]
